@@ -241,6 +241,22 @@ CLAIMED["C08"] = {
     "design": "5 C08",
 }
 
+CLAIMED["C20"] = {
+    "text": "Position.tla is the parser's cursor as a state machine (operator++/--/- with the single remembered column; SkipWS, SkipComment with its "
+            "two step-backs across a line end, Eol, token and look-ahead calls in any order the parser can make them) over every text of character "
+            "classes up to MaxLen: CoordsTrue (line/col are the true coordinates) holds in every state, and the modelled regression (operator- as "
+            "column arithmetic) is found by TLC. ErrStack.tla joins ChaiCore's error propagation (every labelled node an error unwinds through - the "
+            "failing identifier/call, then each enclosing call across functions and chunks - is appended to the call stack) with PositionOps!Scan "
+            "(cursor coordinates at every token character of a laid-out chunk). Generated multi-chunk programs (LF/CRLF/mixed, blank lines, //, #, "
+            "/* */ comments, indentation, real files and eval labels, call depth 0-4, five fault kinds, call sites nested in if/for/while/blocks/"
+            "lambdas/arguments) are decided by TLC and replayed in the engine: eval_error::call_stack[0] and the Fun_Call subsequence must carry the "
+            "predicted file, line and column; the spec cursor is cross-checked with the generator's ground truth on every label.",
+    "note": "The cursor model is exhaustive for texts up to 4 (quick) / 7 (thorough, reduced alphabet) character classes; program-level replay is sampling "
+            "(250 quick / 4000 thorough cases per seed). Only call sites that begin with an identifier (as the property's quantifier states); parse-error positions are not part of the property.",
+    "technique": "TLC model checking of the cursor automaton (exhaustive small texts) + TLA+ reference call-stack/coordinates prediction evaluated by TLC on generated programs, replayed into the implementation",
+    "design": "5 C20",
+}
+
 PENDING_REASON = "check not built yet in this session; planned (see DESIGN.md section 8)"
 
 ALL = [f"C{i:02d}" for i in range(1, 21)]
